@@ -842,6 +842,9 @@ def check_C05(tier):
     scenario_spellings(run, 30 if t else 20, reps=6 if t else 1)
     scenario_recursive(run, 1500 if t else 250)
     scenario_probes(run, {'clear', 'compaction', 'purge_off', 'bulk'}, backends=('plain', 'dictarch', 'file'))
+    # arguments of mutually unorderable types (int, str, None, float, tuple, bytes) under keymaps that keep them as they are
+    scenario_random(run, BOUNDED, ['std', 'safe'], ['plain', 'dictarch', 'file'], 500 if t else 100, 30, maxsizes=(1, 2, 3), nx=6,
+                    variants=('mixed',), keymaps=[('raw', True, False), ('raw', True, True), ('dill', True, False), ('str-repr', True, False)], profile='calls')
     scenario_random(run, BOUNDED, ['std', 'safe'], ['plain', 'dictarch', 'file', 'dir', 'sql'], 1500 if t else 250,
                     40 if t else 30, maxsizes=(1, 2, 3, 4), nx=6, profile='setarch')
     return run.finish(assumptions=ASSUME)
